@@ -35,7 +35,7 @@ REQUIRES = ['From SFC.Base Require Import Res Expr.',
 SOURCES = ['sfc_models/equation_solver.py', 'sfc_models/equation_parser.py', 'sfc_models/utils.py']
 
 NAMES = ['x', 'y', 'z', 'w', 'u', 'v', 'a', 'b', 'c', 'g', 'h', 'm', 'n', 'p', 'q', 'r', 'HH_F', 'GOV__T', 'Y2']
-TOLS = ['1e-3', '1e-4', '1e-5', '1e-6', '1e-8', '1e-10']
+TOLS = ['1e-3', '1e-4', '1e-5', '1e-6', '1e-8', '1e-10', '1e-12']
 MATH_CONSTS = {'pi': math.pi, 'e': math.e, 'tau': math.tau, 'inf': math.inf, 'nan': math.nan}
 
 
